@@ -116,12 +116,10 @@ func SortObjs(objs object.UnstructuredSet) ([]object.UnstructuredSet, error) {
 // ReverseSortObjs is the same as SortObjs but using reverse ordering.
 func ReverseSortObjs(objs object.UnstructuredSet) ([]object.UnstructuredSet, error) {
 	// Sorted objects using normal ordering.
+	// On error the sortable objects are still returned, so reverse them too.
 	s, err := SortObjs(objs)
-	if err != nil {
-		return s, err
-	}
 	ReverseSetList(s)
-	return s, nil
+	return s, err
 }
 
 // ReverseSetList deep reverses of a list of object lists
